@@ -370,6 +370,50 @@ int main(int argc, char** argv) {
         }
         vh::obs_add("fir1_orders_checked");
     }
+    //---- design histories: the same (order, cut-off) designed one after another with different windows, and the same window with
+    //different cut-offs; every design must equal, bit for bit, the same call made first thing in a fresh thread (a memo keyed by only
+    //part of the arguments shows here)
+    {
+        const dl::FilterType ftl[4] = {dl::FilterType::Low, dl::FilterType::High, dl::FilterType::Bandpass, dl::FilterType::Bandstop};
+        const int nh = thorough ? 400 : 60;
+        for (int hidx = 0; hidx < nh; ++hidx) {
+            if (!vh::mine(idx++)) {
+                continue;
+            }
+            vh::Rng r = vh::rng_for("fir1hist", hidx);
+            const int n = 2 * int(r.range(2, 60));   //even order: same length for every type
+            const double w1 = r.uni(0.1, 0.5);
+            const double w2 = w1 + r.uni(0.1, 0.4);
+            const int len = n + 1;
+            std::vector<arr_real> wins = {dl::ones(len), W::hann(len) + 0.01, W::hamming(len), W::blackman(len) + 0.001, dl::abs(gauss_real(r, len)) + 0.1, W::kaiser(len, 5.0)};
+            vh::begin_case("fir1_history", "n=%d w=(%.6f,%.6f)", n, w1, w2);
+            const int steps = int(r.range(6, 14));
+            for (int st = 0; st < steps; ++st) {
+                const int type = int(r.below(4));
+                const int wk = int(r.below(uint64_t(wins.size()) + 1));   //== wins.size(): default window
+                const double c1 = (r.below(3) == 0) ? r.uni(0.1, 0.5) : w1;
+                auto call = [&]() -> std::vector<double> {
+                    arr_real h;
+                    if (wk == int(wins.size())) {
+                        h = (type < 2) ? dl::fir1(n, c1, ftl[type]) : dl::fir1(n, c1, w2, ftl[type]);
+                    } else {
+                        h = (type < 2) ? dl::fir1(n, c1, ftl[type], wins[wk]) : dl::fir1(n, c1, w2, ftl[type], wins[wk]);
+                    }
+                    return h.to_vec();
+                };
+                vh::Hasher hh;
+                hh.s("fir1hist").i(hidx).i(st);
+                vh::count(hh.get(), true);
+                vh::obs_add("fir1_history_designs");
+                if (!same_as_in_fresh_thread(call)) {
+                    vh::violation(vh::fmt("C11/fir1/depends_on_earlier_designs/%s", TN[type]),
+                                  vh::fmt("fir1(n=%d, %s, wn=%.17g%s, window %d of 7) designed after other windows / cut-offs of the same order differs from the same call in a fresh thread", n, TN[type], c1,
+                                          type >= 2 ? vh::fmt(",%.17g", w2).c_str() : "", wk));
+                    break;
+                }
+            }
+        }
+    }
     vh::sample("fir1: every order 2..256 x cut-offs {0.02,0.1,0.25,0.5,0.75,0.9,0.98,random} x {low,high,bandpass,bandstop}; |H| on a long-double grid vs the masks when all bands are wider than 16/(n+1)");
 
     //---- windows
@@ -383,6 +427,10 @@ int main(int argc, char** argv) {
         for (int i = 0; i < extra; ++i) {
             lens.push_back(int(std::exp(r.uni(std::log(513.0), std::log(1e5)))));
         }
+    }
+    //lengths at integer thresholds (n^2 and (n-1)^2 around 2^31 and 2^32) and the largest sampled length
+    for (int n : {32767, 32768, 46340, 46341, 46342, 65535, 65536, 65537, 65538, 100000}) {
+        lens.push_back(n);
     }
     for (int n : lens) {
         if (!vh::mine(idx++)) {
